@@ -4,7 +4,7 @@ pub use ::needletail::*;
 use std::io::Write;
 
 #[derive(Clone, Debug)]
-pub struct ModelRecord { pub id: Vec<u8>, pub seq: Vec<u8>, pub qual: Option<Vec<u8>> }
+pub struct ModelRecord { pub id: &'static [u8], pub seq: Vec<u8>, pub qual: Option<Vec<u8>> }
 #[derive(Clone, Debug)]
 pub struct ModelFile { pub path: &'static str, pub records: Vec<ModelRecord> }
 
@@ -20,8 +20,8 @@ pub fn vfs_set(files: Vec<ModelFile>) {
         let mut w = std::fs::File::create(vfs_path(f.path)).unwrap();
         for r in &f.records {
             match &r.qual {
-                None => { w.write_all(b">").unwrap(); w.write_all(&r.id).unwrap(); w.write_all(b"\n").unwrap(); w.write_all(&r.seq).unwrap(); w.write_all(b"\n").unwrap(); }
-                Some(q) => { w.write_all(b"@").unwrap(); w.write_all(&r.id).unwrap(); w.write_all(b"\n").unwrap(); w.write_all(&r.seq).unwrap(); w.write_all(b"\n+\n").unwrap(); w.write_all(q).unwrap(); w.write_all(b"\n").unwrap(); }
+                None => { w.write_all(b">").unwrap(); w.write_all(r.id).unwrap(); w.write_all(b"\n").unwrap(); w.write_all(&r.seq).unwrap(); w.write_all(b"\n").unwrap(); }
+                Some(q) => { w.write_all(b"@").unwrap(); w.write_all(r.id).unwrap(); w.write_all(b"\n").unwrap(); w.write_all(&r.seq).unwrap(); w.write_all(b"\n+\n").unwrap(); w.write_all(q).unwrap(); w.write_all(b"\n").unwrap(); }
             }
         }
     }
